@@ -8,6 +8,7 @@ import numpy as n
 
 from xfab import tools
 from xfab import sg
+from xfab.sg import sgdic
 from xfab import atomlib
 from six.moves import range
 
@@ -280,10 +281,13 @@ class build_atomlist:
 
         # Make space group name
         sgtmp = sg.split()
-        sg = ''
-        for i in range(len(sgtmp)):
-            if sgtmp[i] != '1':
-                sg = sg + sgtmp[i].lower()
+        sg = ''.join(sgtmp).lower()
+        if sg not in sgdic:
+            # drop the '1' place-holders of the full symbol, e.g. 'P 1 21 1'
+            sg = ''
+            for i in range(len(sgtmp)):
+                if sgtmp[i] != '1':
+                    sg = sg + sgtmp[i].lower()
         self.atomlist.sgname = sg
 
         # Build SCALE matrix for transformation of 
